@@ -75,6 +75,8 @@ def run(chk, gate, status):
                         "fill_to on a strict sub-region of a plate is generated in 1/8 of the programs and reported as known finding D13 when it reproduces"]
     cov = recipes.check(chk, 'C08', cases, oracle, RULE, nontrivial)
     cov['recipes_under_configuration_variants'] = recipes.variants(chk, cases, oracle, 'C08v', limit=8 if chk.tier == 'quick' else 60)
+    nod13 = [c for c in cases if not any(st['op'] == 'fill' and 'p' in st['t'] for st in c[0].steps)]
+    cov['recipes_under_default_densities_inf'] = recipes.density_variant(chk, nod13, against_ledger, 'C08v', limit=10 if chk.tier == 'quick' else 60)
     return cov
 
 
